@@ -41,7 +41,7 @@ CHECKS['C03'] = dict(
          '(no !del/!new marks, no lists), Builder.flatten succeeds and builds exactly the left fold of upd_p over the documents\' priority images (values AND priorities of all nodes; '
          'induction on the fuel, loop lemma loop_dict_z, invariants OldZ/NewZ); C03_every_leaf_path_latest_of_highest - at every path whose spine is mappings in every document, the merged '
          'value is that of the latest document among those of highest priority there (pre <= W > post), nothing if nobody writes it; C03_update_is_pointwise; C03_prediction_sound / '
-         'C03_document_prediction_sound (the class is decidable; the correspondence runs the sound checker on the trees the real loader built and on the documents as written and compares the '
+         'C03_document_prediction_sound, C03_evaluated_config (down to the config a user gets: merge, placeholder check, deep copy, evaluation yield exactly the values of the fold) (the class is decidable; the correspondence runs the sound checker on the trees the real loader built and on the documents as written and compares the '
          'predicted tree with Builder.build: a value difference is a concrete failing input). Outside the class (lists with priorities - known findings D18/D5 live there -, !del/!new marks, '
          'dynamic nodes) the statement stays with the sampled merge correspondence and the latest-argmax / exact-metadata oracle.',
     design='4 (C03)',
